@@ -237,14 +237,17 @@ func (sc *storeCtx) rangeFor(f *kit.Func, at ast.Node, ix *ast.IndexExpr) *ast.R
 	if !sc.isSlice(f, ix.X) {
 		return nil
 	}
-	n := f.Enclosing(at, func(n ast.Node) bool {
-		x, ok := n.(*ast.RangeStmt)
-		return ok && sc.isSlice(f, x.X) && x.Key != nil && kit.ObjOf(info, x.Key) != nil && kit.ObjOf(info, x.Key) == kit.ObjOf(info, ix.Index)
-	})
-	if n == nil {
-		return nil
+	// range statements and the equivalent counting loops alike
+	var best *ast.RangeStmt
+	for _, l := range f.SliceLoops(f.Body) {
+		if l.Body.Pos() <= at.Pos() && at.End() <= l.Body.End() && sc.isSlice(f, l.X) && l.Key != nil &&
+			kit.ObjOf(info, l.Key) != nil && kit.ObjOf(info, l.Key) == kit.ObjOf(info, ix.Index) {
+			if best == nil || l.Body.Pos() >= best.Body.Pos() {
+				best = l
+			}
+		}
 	}
-	return n.(*ast.RangeStmt)
+	return best
 }
 
 func (sc *storeCtx) bind(st *regStore) elemBinding {
@@ -314,16 +317,16 @@ func (sc *storeCtx) atoms(f *kit.Func, b elemBinding, stored types.Object) kit.A
 	for _, p := range f.Params() {
 		params[p] = true
 	}
-	var elemVar types.Object
-	if b.rs != nil && b.rs.Value != nil {
-		elemVar = kit.ObjOf(info, b.rs.Value)
+	elemVars := map[types.Object]bool{}
+	if b.rs != nil {
+		elemVars = kit.ElemAliases(info, b.rs)
 	}
 	isElem := func(e ast.Expr) bool {
 		e = ast.Unparen(e)
 		if se, ok := e.(*ast.StarExpr); ok {
 			e = ast.Unparen(se.X)
 		}
-		if o := kit.ObjOf(info, e); o != nil && (o == elemVar || (b.ptr != nil && o == b.ptr)) {
+		if o := kit.ObjOf(info, e); o != nil && (elemVars[o] || (b.ptr != nil && o == b.ptr)) {
 			return true
 		}
 		if ie, ok := e.(*ast.IndexExpr); ok && b.rs != nil {
@@ -378,7 +381,7 @@ func (sc *storeCtx) atoms(f *kit.Func, b elemBinding, stored types.Object) kit.A
 		return false
 	}
 	return func(e ast.Expr) (string, bool, bool) {
-		e = ast.Unparen(e)
+		e = ast.Unparen(mbCond(f, e))
 		// result of an index helper compared with a constant: decided when the
 		// outcome is the same for every index >= 0 and different for "not found"
 		if b.idx != nil {
@@ -475,7 +478,12 @@ func (sc *storeCtx) verifyHelper(h *kit.Func) *lookupHelper {
 			}
 			n++
 		case *ast.ForStmt:
-			n += 2
+			if cl := h.CanonLoop(y); cl != nil && sc.isSlice(h, cl.X) {
+				rs = cl
+				n++
+			} else {
+				n += 2
+			}
 		}
 		return true
 	})
@@ -681,7 +689,12 @@ func (sc *storeCtx) verifyIndexHelper(h *kit.Func) *lookupHelper {
 			}
 			n++
 		case *ast.ForStmt:
-			n += 2
+			if cl := h.CanonLoop(y); cl != nil && sc.isSlice(h, cl.X) {
+				rs = cl
+				n++
+			} else {
+				n += 2
+			}
 		}
 		return true
 	})
